@@ -139,8 +139,18 @@ impl SqliteQueryBuilder {
                     _ => "varchar".into(),
                 },
                 ColumnType::Text => "text".into(),
-                ColumnType::TinyInteger | ColumnType::TinyUnsigned => integer("tinyint").into(),
-                ColumnType::SmallInteger | ColumnType::SmallUnsigned => integer("smallint").into(),
+                ColumnType::TinyInteger | ColumnType::TinyUnsigned => if is_auto_increment {
+                    "integer"
+                } else {
+                    integer("tinyint")
+                }
+                .into(),
+                ColumnType::SmallInteger | ColumnType::SmallUnsigned => if is_auto_increment {
+                    "integer"
+                } else {
+                    integer("smallint")
+                }
+                .into(),
                 ColumnType::Integer | ColumnType::Unsigned => "integer".into(),
                 #[allow(clippy::if_same_then_else)]
                 ColumnType::BigInteger | ColumnType::BigUnsigned => if is_auto_increment {
